@@ -179,3 +179,7 @@ var propC05 = &propDef{id: "C05", oracles: []oracleFn{oracleC05}, scenarios: taS
 func TestVerifC01(t *testing.T) { runProp(t, propC01) }
 func TestVerifC03(t *testing.T) { runProp(t, propC03) }
 func TestVerifC05(t *testing.T) { runProp(t, propC05) }
+
+var propC09 = &propDef{id: "C09", oracles: []oracleFn{oracleC09}, scenarios: c09Scenarios, post: drainC09}
+
+func TestVerifC09(t *testing.T) { runProp(t, propC09) }
